@@ -558,7 +558,7 @@ theorem mono_visitModule (w : World) (o : Opts) (cls : Class) (c : Content) :
 
 /-- the followed targets of a module entry -/
 def modTargets (o : Opts) : BMod → List Spec
-  | .js _ deps td => deps.flatMap (depTargets o) ++ (match td with | some (.ok s _) => [s] | _ => [])
+  | .js _ deps td _ => deps.flatMap (depTargets o) ++ (match td with | some (.ok s _) => [s] | _ => [])
   | .wasm deps => deps.flatMap (depTargets o)
   | _ => []
 
